@@ -1578,6 +1578,17 @@ where
         self.generation.fetch_add(1, Ordering::Relaxed);
     }
 
+    /// Continues `previous`'s generation counter in `self`.
+    ///
+    /// Used when a freshly built `Tds` replaces another one inside the same triangulation
+    /// (initial-simplex bootstrap, heuristic rebuild): generation-keyed views such as
+    /// `ConvexHull` compare counter values, so the counter must keep increasing across the
+    /// replacement instead of restarting from the new structure's own small value.
+    pub(crate) fn continue_generation_from(&mut self, previous: &Self) {
+        let next = previous.generation().max(self.generation()).wrapping_add(1);
+        self.generation = Arc::new(AtomicU64::new(next));
+    }
+
     /// Gets the current generation value.
     ///
     /// This can be used by external code to detect when the triangulation has changed.
